@@ -14,7 +14,7 @@ RULE = ("A case is a JSON description of a ListGrader tree (leaves: table-driven
         "with or without grouping), its answers (1-3 alternative lists; answers as strings, dicts with grade_decimal/"
         "msg, tuples of alternatives, expect tuples), and an input list that is graded in one, several or ALL of its "
         "permutations. Exhaustive parts: every 2x2 credit matrix over {0,.1,1/3,.5,.7,1} x ordered/unordered x "
-        "partial_credit x both input orders; every 3x3 matrix over {0,.5,1} (unordered); every pair of 2x2 matrices "
+        "partial_credit x both input orders; every 3x3 matrix over {0,.5,1} and every 4x4 over {0,1} (unordered; thorough: also 3x3 over {0,1/3,.7,1}); every pair of 2x2 matrices "
         "over {0,.5,1} as two alternative answer lists; every equal-size grouping of 4/6/8 inputs (unordered) and every "
         "grouping of 2..5 inputs (2..7 in the thorough tier) into contiguous-numbered groups (ordered, list of "
         "subgraders). Random parts: flat graders n=2..6 (all n! input orders for n<=5, 6 sampled orders for n=6) and "
@@ -37,7 +37,8 @@ ASSUMPTIONS = ["leaf results come from an independent instance of the same leaf 
                "only configurations the documentation allows are built (unordered: one subgrader and equal-size groups; "
                "a list of subgraders only when ordered; groups with more than one member go to a ListGrader); a "
                "construction or grading error on such a configuration is reported as a violation",
-               "SingleListGrader leaf inputs have no empty items (missing_error would raise by design)"]
+               "SingleListGrader leaf inputs have no empty items (missing_error would raise by design)",
+               "a grading call is given 10 s (normal: < 5 ms) before it counts as non-terminating"]
 REQUIRED = {'flat/unordered': 600, 'flat/ordered/single-subgrader': 150, 'flat/ordered/subgrader-list': 150,
             'lists=1': 500, 'lists=2': 200, 'lists=3': 150, 'lists/different-optima': 150, 'lists/best-not-first': 80,
             'answers/alternatives': 300, 'n=2': 100, 'n=3': 100, 'n=4': 100, 'n=5': 100, 'n=6': 100,
@@ -388,7 +389,7 @@ def judge_built(spec, grader, top, rec):
     summary = []
     for od in orders:
         inputs = [base_inputs[i] for i in od]
-        with watchdog(30):
+        with watchdog(10):
             status, res = call(grader, None, list(inputs))
         rec.calls()
         if status == 'err':
@@ -533,9 +534,9 @@ def items_enum2(tier):
 
 def items_enum3(tier):
     yield from enum_items([0, 0.5, 1], 3, 1, [(False, True), (False, False)])
+    yield from enum_items([0, 1], 4, 1, [(False, True)])
     if tier == 'thorough':
         yield from enum_items([0, 1 / 3, 0.7, 1], 3, 1, [(False, True)])
-        yield from enum_items([0, 1], 4, 1, [(False, True)])
 
 
 def items_enumlists(tier):
@@ -872,10 +873,10 @@ def flat_cases(draw):
         node['pc'] = False
     gen.plant = gen.chance(45 if not node['pc'] else 12)
     spec = gen.case(node, n, nlists)
-    if n <= 4 or (n == 5 and gen.chance(50)):
+    if n <= 5:
         spec['perms'] = 'all'
     else:
-        spec['perms'] = [list(draw(st.permutations(range(n)))) for _ in range(6 if n == 6 else 4)]
+        spec['perms'] = [list(draw(st.permutations(range(n)))) for _ in range(6)]
     return spec
 
 
